@@ -48,7 +48,8 @@ def main():
     prop = sys.argv[2]
     props = sys.argv[2:]
     n = os.path.basename(seed)
-    tag = "%s-%s" % (prop, n)
+    owner = os.path.basename(os.path.dirname(os.path.dirname(seed)))  # /tmp/seed/<PROP>/seed/<n>
+    tag = "%s-%s" % (owner if owner.startswith("C") else prop, n)
     wt = "/tmp/sv-%s" % tag
     sh(["git", "-C", "/repo", "worktree", "remove", "--force", wt])
     r = sh(["git", "-C", "/repo", "worktree", "add", "--detach", wt, "HEAD"])
@@ -94,7 +95,7 @@ def main():
             meta = json.load(open(os.path.join(seed, "meta.json")))
         except Exception:
             meta = {}
-        meta["property"] = prop
+        meta["property"] = owner if owner.startswith("C") else prop
         meta["confirmed_by_me"] = {
             "how": "scratch worktree of /repo HEAD: demo exits 0 on the clean tree and 1 with the patch; patched package imports; the 76 baseline tests still pass with the patch",
             "ran": "tools/seedcheck.py %s %s" % (seed, " ".join(props)),
